@@ -17,7 +17,7 @@ CHECKS = {
          "For every accepted input the parse is repeated with a suffix appended: value must be equal, the remainder must be exactly the suffix slice of the same buffer, every reachable slice must alias the consumed prefix; whenever the independent calculator says the declared length is already present the outcome class must not change (this is what catches a nested length reading into the next structure). Defragmenter results are checked for provenance through the hook.",
          "Addresses of empty slices are not judged; PskExchangeModes is an owned Vec by design.",
          "3/C06"),
- "C07": ("runtime monitor: executable sequential model of the defragmenter run in lock-step with the real object over generated operation histories; hooked buffer/type compared after every call",
+ "C07": ("runtime monitor: executable sequential model of the defragmenter run in lock-step with the real object over generated operation histories; hooked buffer/type compared after every call; second pass with a warped clock (LD_PRELOAD fault injection) in the workers",
          "Histories: k-way splits (incl. all 2/3-way cut positions of short payloads, empty fragments), foreign-type injections, nocopy in every state, reuse after completion in lock-step with a fresh parser, op soups, and streams across the 10 MiB cap. After every operation answer, defrag_in_progress(), buffer contents (hook), state-unchanged-on-refusal and slice provenance must match the model; the split scenarios also carry the property-level oracle (all but the last Incomplete, last == unsplit parse).",
          "The model's one-shot parser is the real parse_tls_record_with_header (decided by C03): differential between two paths of the real code plus a 40-line bookkeeping model.",
          "3/C07"),
@@ -53,7 +53,7 @@ CHECKS = {
          "The many-parsers must return exactly the loop's records and a remainder at the loop's stopping point (by address), and fail iff the loop yields nothing; tls_parser is compared with parse_tls_plaintext including error kind and error position.",
          "Single-record parsers are the reference (judged by C02/C03/C10).",
          "3/C16"),
- "C18": ("observing the toolchain and the built binaries per configuration: feature-matrix builds, differential digests of 63 entry points over a generated corpus in each configuration (and with hooks on), Send/Sync and forbid(unsafe_code) build probes, 16-thread sharing at run time (Miri data-race detector in thorough)",
+ "C18": ("observing the toolchain and the built binaries per configuration: feature-matrix builds, differential digests of 63 entry points over a generated corpus in each configuration (and with hooks on), the same digests under an LD_PRELOAD time-warp shim and a scrambled environment (ambient-input fault injection), Send/Sync and forbid(unsafe_code) build probes, 16-thread sharing at run time (Miri data-race detector in thorough)",
          "Each configuration of the property's quantifier is built and, where buildable, run on the same corpus; digests of (outcome, Debug text, remainder) must be identical line by line. serialize-without-std must be refused with the crate's own diagnostic. The two static clauses are decided by build probes (compiler as monitor) and reported as such.",
          "Build probes are static observations; unsafe expanded from external macros is outside the lint.",
          "3/C18"),
